@@ -187,7 +187,10 @@ func (x *execState) reserve(s *tw.Stmt, sc *Scope) signal {
 	}
 	x.Facts["reserve-filled"]++
 	if ins.Block {
-		return x.block(ins.Body, NewScope(sc, "if"))
+		// the reserve is replaced by the insert's content: the body runs in the layout's
+		// block at this place (an insert is not among the blocks of C04), so what it
+		// assigns is seen by what follows the reserve
+		return x.block(ins.Body, sc)
 	}
 	if v, ok := x.eval(ins.E, sc); ok {
 		x.print(v)
